@@ -37,7 +37,7 @@ ASSUMPTIONS = {"*": [
 EXPECTED_FAULTS = {"C13": ["deadline", "stall"]}
 DETERMINISM_SAMPLE = {"quick": 4, "thorough": 12}
 EXHAUSTIVE = {}
-BIG = 1e9
+BIG = 1e30
 
 
 class StepCap(Exception):
@@ -296,8 +296,34 @@ def execute(case):
              "text=%r: %d scorings beyond one per rule application between two deadline checks"
              % (case["text"], sc))
 
-    def judge(tag, k, S, log, exc_, timeout_abs):
+    # reads of the reference run: (value, is a deadline check); index of the library's own
+    # start capture (today: read 0)
+    ref_reads = [(ev[3], ev[1] not in ("timeout", "_wrapper")) for ev in log_inf if ev[0] == "read"]
+    start_idx = next((i for i, ev in enumerate(e for e in log_inf if e[0] == "read")
+                      if ev[1] == "timeout"), 0)
+
+    def expected_stop(timeout_abs, stall_at=None, stall_by=0.0):
+        """index of the check at which the run has to stop, computed from the reference run
+        alone (independent of how the library measures elapsed time)"""
+        shift = 0.0
+        for i, (v, is_check) in enumerate(ref_reads):
+            vv = v + shift
+            if i > start_idx and is_check and vv - (ref_reads[start_idx][0]) > timeout_abs:
+                return i
+            if stall_at is not None and i == stall_at:
+                shift += stall_by
+        return None
+
+    def judge(tag, k, S, log, exc_, timeout_abs, stall_at=None, stall_by=0.0):
         """Clauses 1-4 for one run with a deadline."""
+        if not exc_:
+            want = expected_stop(timeout_abs, stall_at, stall_by)
+            n_reads = sum(1 for ev in log if ev[0] == "read")
+            if want is not None and n_reads > want + 1:
+                viol("C13.stops-at-first-check", "deadline-not-honoured",
+                     "text=%r %s=%s: the deadline had passed at clock read %d (a deadline "
+                     "check of the run without deadline) but the run went on for %d more "
+                     "clock reads" % (case["text"], tag, k, want, n_reads - want - 1))
         if exc_:
             viol("C13.raises", "%s:%s" % (tag, exc_.split(":")[0]),
                  "text=%r expiry=%s: %s" % (case["text"], k, exc_))
@@ -385,7 +411,7 @@ def execute(case):
         S, log, exc_, _ = _run(lib, case, timeout, "gen", deltas, stall_at=k, stall_by=1e12)
         n_eval += 1
         faults["stall"] += 1
-        ok = judge("stall", k, S, log, exc_, timeout)
+        ok = judge("stall", k, S, log, exc_, timeout, stall_at=k, stall_by=1e12)
         obs.append(["stall", k, None if S is None else len(S)])
         if ok and case.get("with_call", True):
             judge_call("stall", k, S, timeout, stall_at=k, stall_by=1e12)
@@ -456,8 +482,15 @@ def plan(prop, tier, seed):
                 opts["relative_match_len"] = rng.choice([0.5, 0.8])
         ts = workload.ref_time(rng, 2000, 2040).replace(microsecond=0)
         base = {"text": text, "ts": fmt_ts(ts), "opts": opts, "family": fam}
-        if rng.random() < 0.25:
+        r = rng.random()
+        if r < 0.25:
             base["deltas"] = [rng.choice([0.25, 1.0, 3.0, 0.001]) for _ in range(7)]
+        elif r < 0.33:
+            # nanosecond-scale budgets (a timeout of 5e-9 is still a positive timeout)
+            base["deltas"] = [rng.choice([1e-9, 2e-9, 5e-9]) for _ in range(5)]
+        elif r < 0.4:
+            # very large readings (float spacing, int-vs-float handling)
+            base["deltas"] = [rng.choice([1e6, 3e6, 1e7]) for _ in range(5)]
         R = _learn_R(lib, base)
         if R is None:
             cases.append(dict(base, expiries=[], stalls=[]))
